@@ -24,6 +24,7 @@ pub fn dispatch(op: &str, req: &Value) -> Value {
         "flow" => flow(req),
         "context" => context(req),
         "ron_roundtrip" => ron_roundtrip(req),
+        "zerv_roundtrip" => zerv_roundtrip(req),
         _ => json!({"error": format!("unknown op {op}")}),
     }
 }
@@ -162,6 +163,7 @@ pub fn vars_of(v: &Value) -> ZervVars {
     z.bumped_branch = s("bumped_branch"); z.bumped_commit_hash = s("bumped_commit_hash");
     z.last_branch = s("last_branch"); z.last_commit_hash = s("last_commit_hash");
     z.bumped_timestamp = v["bumped_timestamp"].as_u64(); z.last_timestamp = v["last_timestamp"].as_u64();
+    z.last_tag_version = s("last_tag_version");
     if !v["pre_release"].is_null() {
         let label = match v["pre_release"]["label"].as_str().unwrap() { "alpha" => PreReleaseLabel::Alpha, "beta" => PreReleaseLabel::Beta, _ => PreReleaseLabel::Rc };
         z.pre_release = Some(PreReleaseVar { label, number: v["pre_release"]["number"].as_u64() });
@@ -417,4 +419,18 @@ fn ron_roundtrip(req: &Value) -> Value {
     json!({"ok": true, "emitted": emitted, "emitted2": emitted2,
            "object": format!("{:?}|{:?}", z, z.schema.precedence_order().to_vec()),
            "object2": format!("{:?}|{:?}", z2, z2.schema.precedence_order().to_vec())})
+}
+
+
+/// an object built in memory (not parsed): emit with Display (ron), parse back with FromStr, compare
+fn zerv_roundtrip(req: &Value) -> Value {
+    use std::str::FromStr;
+    let schema = ZervSchema::new(
+        vec![Component::Var(Var::Major), Component::Var(Var::Minor), Component::Var(Var::Patch)],
+        vec![Component::Var(Var::Epoch), Component::Var(Var::PreRelease), Component::Var(Var::Post), Component::Var(Var::Dev)],
+        vec![Component::Var(Var::BumpedBranch), Component::Var(Var::BumpedCommitHashShort)]).unwrap();
+    let z = Zerv { schema, vars: vars_of(&req["vars"]) };
+    let emitted = z.to_string();
+    let z2 = match Zerv::from_str(&emitted) { Ok(z) => z, Err(e) => return json!({"ok": false, "emitted": emitted, "err": e.to_string()}) };
+    json!({"ok": true, "emitted": emitted, "emitted2": z2.to_string(), "object": format!("{:?}", z), "object2": format!("{:?}", z2)})
 }
